@@ -22,14 +22,14 @@ def gen_movies(rng, tier):
     movies = []
     bases = ["moof", "explicit", "explicit_end"]
     # shape-exhaustive: one track, 1..2 fragments, every flag combination
-    for base, tfhd_dur, per_dur, with_cts, tfdt_v, nfr in itertools.product(bases, (None, 33), (False, True), (False, True), (0, 1), (1, 2)):
+    for base, tfhd_dur, per_dur, with_cts, tfdt_v, nfr, moof_flag in itertools.product(bases, (None, 33), (False, True), (False, True), (0, 1), (1, 2), (False, True)):
         frags = []
         t = 1000
         for f in range(nfr):
             n = (2, 1)[f] if nfr == 2 else 3
             durs = [7 + j for j in range(n)] if per_dur else None
             frags.append([{"track_id": 1, "base": base, "tfhd_dur": tfhd_dur, "tfdt": t, "tfdt_v": tfdt_v, "durations": durs, "sizes": [3 + j for j in range(n)],
-                           "cts": [(-4, 0, 9)[j % 3] for j in range(n)] if with_cts else None, "k0": 1 + 3 * f}])
+                           "cts": [(-4, 0, 9)[j % 3] for j in range(n)] if with_cts else None, "k0": 1 + 3 * f, "moof_flag": moof_flag}])
             t += sum(durs) if durs else n * (tfhd_dur if tfhd_dur is not None else 50)
         movies.append(([{"id": 1, "kind": "avc", "ts": 1000}], frags, 50))
     n_rand = 150 if tier == "quick" else 3000
@@ -48,7 +48,7 @@ def gen_movies(rng, tier):
                 tf = {"track_id": t["id"], "base": rng.choice(bases), "tfhd_dur": rng.choice([None, None, 20, 1001]), "tfdt": clock[t["id"]],
                       "tfdt_v": 1 if clock[t["id"]] >= (1 << 32) else rng.choice([0, 1]), "durations": [rng.choice([0, 1, 33, 4000]) for _ in range(n)] if per else None,
                       "sizes": [rng.choice([0, 1, 2, 9, 60]) for _ in range(n)], "cts": [rng.choice([0, 7, -7, 2 ** 31 - 1, -2 ** 31]) for _ in range(n)] if rng.random() < 0.5 else None,
-                      "with_offset": True, "trun": True, "k0": cnt[t["id"]]}
+                      "with_offset": True, "trun": True, "k0": cnt[t["id"]], "moof_flag": rng.random() < 0.4}
                 d = sum(tf["durations"]) if per else n * (tf["tfhd_dur"] if tf["tfhd_dur"] is not None else dflt)
                 clock[t["id"]] += d
                 cnt[t["id"]] += n
@@ -171,7 +171,7 @@ def check(rep):
             elif t2:
                 ties.append(("reader_model_%s_%d" % (profile, len(ties)), dict(t2, kind="correspondence", case="movie %d %s" % (mi, kind), file=cases[ci]["data"].hex(), frag=cases[ci].get("frag", b"").hex())))
     rep.coverage.update({"evaluations": 2 * len(cases), "distinct_nontrivial": len(distinct),
-                         "rule": "shape-exhaustive one-track movies: base {default-base-is-moof, explicit base-data-offset, explicit base with negative data offsets} x tfhd default duration "
+                         "rule": "shape-exhaustive one-track movies: base {moof start, explicit base-data-offset, explicit base with negative data offsets} x default-base-is-moof flag set/clear (ignored when an explicit base is present) x tfhd default duration "
                                  "present/absent x per-sample durations present/absent x composition offsets present/absent x tfdt version 0/1 x 1-2 fragments; plus seeded random movies "
                                  "(1-2 tracks, 1-3 fragments, 0-5 samples per run, empty runs, 64-bit decode times, free boxes between fragments); each as one stream and as "
                                  "init segment + media segment (read_fragment_header); debug and release; non-trivial = distinct run lists with at least one sample",
